@@ -1,4 +1,4 @@
-//@ kernel place serves=C18,C08,C02
+//@ kernel place serves=C18,C04,C08,C02
 //@ item src/place.rs struct Place
 //@ item src/place.rs impl Place members=*
 
